@@ -163,7 +163,7 @@ def exec_op(op, objs):
         x = g.uniform(-1, 1, size=d)
         if op.get("tensor"):
             x = x.reshape(op["tensor"])
-        for it in range(op["n"]):
+        for it in range(op.get("start", 0), op.get("start", 0) + op["n"]):
             xf = np.ravel(x)
             gx = A @ np.tanh(xf) + b
             fx = gx - xf
@@ -171,6 +171,18 @@ def exec_op(op, objs):
                 gx, fx = gx.reshape(op["tensor"]), fx.reshape(op["tensor"])
             x = aa(gx, fx, it)
         return np.array(x)
+    if k == "W1BAD":
+        # a distance call whose multigrid set-up fails (user amg_options name a smoother pyamg cannot set up)
+        cfg = dict(objs[op["obj"] + "#cfg"])
+        cfg.update(linear_solver="amg", formulation="pressure", amg_options={"presmoother": "no_such_smoother", "max_coarse": 2})
+        cfg["pair"] = op["pair"]
+        a, b = w1.mass_pair(cfg)
+        bad = w1.build(cfg)
+        import warnings
+        with warnings.catch_warnings():
+            warnings.simplefilter("ignore")
+            bad(w1.make_image(a, cfg), w1.make_image(b, cfg))
+        return None
     if k == "W1":
         cfg = dict(objs[op["obj"] + "#cfg"])
         cfg["pair"] = op["pair"]
@@ -179,7 +191,7 @@ def exec_op(op, objs):
         with warnings.catch_warnings():
             warnings.simplefilter("ignore")
             dist, info = objs[op["obj"]](w1.make_image(a, cfg), w1.make_image(b, cfg))
-        return (float(dist), bool(info["converged"]), np.array(info["flux"]))
+        return (float(dist), bool(info["converged"]), np.array(info["flux"]), np.array(info["pressure"]))
     raise HarnessError(f"unknown op {k}")
 
 
@@ -230,8 +242,8 @@ def install_clock():
     return clock
 
 
-def call_rng_seed(case, client, index) -> int:
-    return (case.get("seed", 0) * 1009 + sorted(case["clients"]).index(client) * 101 + index) % 2**31
+def base_rng_seed(case) -> int:
+    return (case.get("seed", 0) * 1009 + 7) % 2**32
 
 
 def child_history(case, schedule, with_faults=True):
@@ -246,6 +258,10 @@ def child_history(case, schedule, with_faults=True):
     intr = _Interrupt()
     pcs = {c: 0 for c in case["clients"]}
     out = []
+    # RNG seam: the numpy global RNG (read by pyamg's set-up) is seeded ONCE per process by the simulator and again by
+    # every rng-skew perturbation; no library call may move it, so a pristine reference seeded with the value in
+    # force must see the same state
+    np.random.seed(base_rng_seed(case))
     for step, c in enumerate(schedule):
         op = case["clients"][c][pcs[c]]
         pcs[c] += 1
@@ -256,10 +272,6 @@ def child_history(case, schedule, with_faults=True):
             for f in case.get("faults", []):
                 if f["step"] == step:
                     intr.arm(f["occurrence"])
-        if op["op"] == "W1":
-            # RNG seam: pyamg draws from the numpy global RNG; its state at the start of a distance call is
-            # decided by (run seed, client, position in the client's program), not by the interleaving
-            np.random.seed(call_rng_seed(case, c, pcs[c] - 1) % 2**32)
         try:
             r, exc = exec_op(op, objs), None
         except KeyboardInterrupt:
@@ -447,6 +459,8 @@ class C16Engine(Engine):
             kinds += ["TVD", "TVD"]
         if "w1" in alphabet:
             kinds += ["W1", "W1", "W1"]
+            if objs[f"{cname}.w0"]["cfg"]["linear_solver"] != "direct":
+                kinds += ["W1BAD"]
         k = r.choice(kinds)
         solvers = ["default", "default", f"{cname}.j0"] + ([f"{cname}.m0"] if f"{cname}.m0" in objs else [])
         if k == "H1":
@@ -480,8 +494,11 @@ class C16Engine(Engine):
                     op[key] = r.choice(vals)
             return op
         if k == "ANDERSON":
-            d = r.randint(2, 8)
+            d = objs[f"{cname}.a0"].setdefault("_d", r.randint(2, 8)) if r.random() < 0.7 else r.randint(2, 8)
             op = {"op": "ANDERSON", "obj": f"{cname}.a0", "n": r.randint(3, 9), "d": d, "map": r.randint(0, 9999)}
+            R = objs[f"{cname}.a0"].get("restart")
+            if R and r.random() < 0.5:
+                op["start"] = R * r.randint(1, 2)  # the caller's iteration counter starts at a restart boundary
             return op
         if k == "TVD":
             if r.random() < 0.5:
@@ -490,6 +507,8 @@ class C16Engine(Engine):
                     "method": r.choice(["chambolle", "anisotropic bregman", "isotropic bregman", "heterogeneous bregman"]),
                     "weight": r.choice([0.05, 0.1, 0.5]), "iters": r.randint(1, 4), "eps": 1e-6,
                     "omega": r.choice([0.5, 1.0]), "regularization": r.choice([0.5, 2.0])}
+        if k == "W1BAD":
+            return {"op": "W1BAD", "obj": f"{cname}.w0", "pair": {"kind": "dense", "id": r.randint(0, 9999)}}
         if k == "W1":
             return {"op": "W1", "obj": f"{cname}.w0", "pair": {"kind": r.choice(["dense", "dense", "compact"]), "id": r.randint(0, 9999)}}
         raise HarnessError(k)
@@ -523,6 +542,15 @@ class C16Engine(Engine):
             if cfg.random() < 0.5:
                 twin["cfg"]["weight"] = {"kind": "const", "val": cfg.choice([0.5, 2.0])}
             objects["c1.w0"] = twin
+        if "w1" in alphabet and ncl >= 2 and objects["c0.w0"]["cfg"]["linear_solver"] != "direct" and cfg.random() < 0.5:
+            # another client uses the library's DEFAULT multigrid options on a grid with more than 100 cells (so that the
+            # default max_coarse=100 still yields a hierarchy), next to an object with user amg_options
+            big = copy.deepcopy(objects["c0.w0"])
+            big["cfg"].update(shape=[cfg.choice([11, 12]), cfg.choice([10, 11])], voxel_size=[1.0, 0.5], amg_default=True,
+                              num_iter=cfg.randint(1, 2), linear_solver=cfg.choice(["amg", "cg"]), formulation="pressure",
+                              ls_options={"atol": 1e-10, "rtol": 1e-10})
+            big["cfg"].pop("max_coarse", None)
+            objects["c1.w0"] = big
         order = [c for c, p in clients.items() for _ in p]
         sch.shuffle(order)
         faults = []
@@ -569,6 +597,7 @@ class C16Engine(Engine):
         pcs = {c: 0 for c in case["clients"]}
         seen: dict = {}       # shared-state key -> list of op descriptors seen so far
         faulted_objs: set = set()
+        rng_in_force = base_rng_seed(case)
         for step, c in enumerate(case["schedule"]):
             op = case["clients"][c][pcs[c]]
             pcs[c] += 1
@@ -577,6 +606,8 @@ class C16Engine(Engine):
             for e in case.get("env", []):
                 if e["before_step"] == step:
                     out.counters["fault:env-" + e["kind"]] += 1
+                    if e["kind"] == "rng-skew":
+                        rng_in_force = e["value"] % 2**32
             target = op.get("obj") or (op.get("solver") if op.get("solver", "default") != "default" else None)
             state_key = target or ("<default:%s>" % op["op"] if op["op"] in ("H1", "SBTVD") else None)
             params_before = copy.deepcopy(model.get(target)) if target in model else None
@@ -590,6 +621,9 @@ class C16Engine(Engine):
             out.event(client=c, op=op["op"], target=target, result=res, exc=exc)
             if op["op"] == "UPDATE":
                 continue
+            if op["op"] == "W1BAD":
+                out.counters["fault:amg-setup-raises" if exc else "probe:amg-bad-options-accepted"] += 1
+                continue
             desc = self._descriptor(op)
             prior = seen.setdefault(state_key, []) if state_key else []
             nontrivial = bool(prior) and any(p != desc for p in prior)
@@ -602,14 +636,14 @@ class C16Engine(Engine):
             # RNG seam: the simulator decides the state of the numpy global RNG (consumed by pyamg's
             # spectral-radius estimates) at the start of every distance call - the same state for the
             # history step and for its pristine reference, so that hidden state is the only difference.
-            rng_seed = call_rng_seed(case, c, pcs[c] - 1)
+            rng_seed = rng_in_force
             ref_params = params_before if op["op"] in ("JACOBI", "MG") else (model.get(target) if target in model else None)
             ref, rexc = kernel.in_fork(child_reference, case, op, ospec, ref_params, rng_seed, timeout=self.run_timeout_s)
             out.counters["op:pristine-reference"] += 1
             tol = 1e-12
             iterative = op["op"] == "W1" and ospec["cfg"]["linear_solver"] != "direct"
             if iterative:
-                tol = max(1e-7, 100 * w1.iterative_tol(ospec["cfg"]))
+                tol = 1e-11  # same RNG state on both sides: iterative back-ends are deterministic (largest seen: 0)
                 if exc is None and rexc is None and (case.get("seed", 0) + step) % 3 == 0:
                     # RNG dependence of a result: same call, pristine process, another RNG state.
                     ref2, rexc2 = kernel.in_fork(child_reference, case, op, ospec, ref_params, rng_seed * 7919 + 1,
@@ -662,11 +696,14 @@ class C16Engine(Engine):
                 for c in per:
                     for i, ((st, a), b) in enumerate(zip(per[c], per2[c])):
                         op = case["clients"][c][i]
-                        if op["op"] == "UPDATE":
+                        if op["op"] in ("UPDATE", "W1BAD"):
                             continue
                         tol = 1e-12
                         if op["op"] == "W1" and objects[op["obj"]]["cfg"]["linear_solver"] != "direct":
-                            tol = max(1e-7, 100 * w1.iterative_tol(objects[op["obj"]]["cfg"]))
+                            # the permuted run has no rng-skew perturbations: with them in the history the RNG states
+                            # differ legitimately (RNG dependence is C16.G's business, measured < 1e-7)
+                            skewed = any(e["kind"] == "rng-skew" for e in case.get("env", []))
+                            tol = 1e-5 if skewed else 1e-11
                         ok = (a[1] == b[1]) and (a[1] is not None or same(a[0], b[0], tol)[0])
                         if not ok:
                             out.violate("C16.P", self._culprit(op, objects.get(op.get("obj")), [], {}), st, client=c, index=i, op=op)
